@@ -688,7 +688,8 @@ def check_bfs(r, rule):
     s = nn.summary(q)
     r.rep.analysed(q)
     where = wh(r, q, s.func.node)
-    ret = s.ret
+    from ..rules import small_rewrites as _small
+    ret = rewrite(s.ret, _small)          # assertions are taken to hold; a loop that cannot exit falls through to the return
     base = ret
     if head(strip(ret)) == "after":
         raise AnalysisBroken(f"{q}: returned accumulator is rebound inside the loops (idiom outside list)")
@@ -709,8 +710,16 @@ def check_bfs(r, rule):
         raise AnalysisBroken(f"{q}: depth loop iterable {show(depth.iterable, 60)} is not range(lo, hi)")
     r.rep.ob(rule, q, ar[0] and ar[1], "depth loop covers 1..max_edits", wh(r, q, depth.node), expected="range(1, max_edits + 1)", found=ar[2], key="bfs depth range")
     v = strip(visit.iterable)
-    snap = (is_mcall(v, "copy") and strip(strip(v[1])[1]) == strip(ret)) or \
-           (is_call(v) and head(strip(v[1])) == "glob" and strip(v[1])[1] in ("builtins.list", "builtins.tuple", "builtins.dict", "builtins.set") and v[2] and strip(v[2][0]) == strip(ret))
+
+    def is_snapshot(v_):
+        v_ = strip(v_)
+        if is_mcall(v_, "copy") and strip(strip(v_[1])[1]) == strip(ret):
+            return True
+        if is_call(v_) and head(strip(v_[1])) == "glob" and strip(v_[1])[1] in ("builtins.list", "builtins.tuple", "builtins.dict", "builtins.set", "builtins.frozenset", "builtins.sorted") and v_[2]:
+            a_ = strip(v_[2][0])
+            return a_ == strip(ret) or (is_mcall(a_, "keys") and strip(strip(a_[1])[1]) == strip(ret)) or is_snapshot(a_)
+        return False
+    snap = is_snapshot(v)
     front = None
     if not snap and head(v) == "phi" and v[1] == depth.lid:
         # frontier idiom: the strings first reached in the previous round are expanded (all older ones have been expanded before)
@@ -742,7 +751,8 @@ def check_bfs(r, rule):
     key_ok = strip(e["index"]) == gen.elem
     val_ok = strip(e["value"]) == depth.elem
     r.rep.ob(rule, q, key_ok and val_ok, "an unseen neighbour is inserted with the current depth", wh(r, q, e.node), expected="ans[new_seq] = edit_distance", found=f"ans[{show(e['index'], 30)}] = {show(e['value'], 30)}", key="bfs insert")
-    gl = [(strip(a), p) for gt, pol in e.ctx.guards for a, p in lits(gt, pol)]
+    asserted = {strip_all(a_["cond"]) for a_ in s.events_of("assert")}
+    gl = [(strip(a), p) for gt, pol in e.ctx.guards if not (pol and strip_all(gt) in asserted) for a, p in lits(gt, pol)]
     unseen = [(a, p) for a, p in gl if head(a) == "cmp" and a[1] in ("in", "notin") and strip(a[2]) == gen.elem and strip(a[3]) == strip(ret)]
     others = [(a, p) for a, p in gl if (a, p) not in unseen]
     ok_guard = len(unseen) == 1 and ((unseen[0][0][1] == "notin") == unseen[0][1]) and not others
